@@ -198,6 +198,8 @@ impl Timestamp {
     #[inline]
     pub fn now() -> Result<Timestamp> {
         let now = Local::now().naive_local();
+        #[cfg(feature = "verif-hooks")]
+        let now = crate::verif_hooks::apply(now);
         Ok(Timestamp::new(
             Date::try_from_ymd(now.year(), now.month(), now.day())?,
             Time::try_from_hms(
@@ -470,6 +472,8 @@ impl TryFrom<Time> for Timestamp {
     #[inline]
     fn try_from(time: Time) -> Result<Self> {
         let now = Local::now().naive_local();
+        #[cfg(feature = "verif-hooks")]
+        let now = crate::verif_hooks::apply(now);
         Ok(Timestamp::new(
             Date::try_from_ymd(now.year(), now.month(), now.day())?,
             time,
